@@ -23,9 +23,12 @@ def wants_x(c):
 
 encode = iomodel.encode
 render = iomodel.render
+canon = iomodel.canon
 
 
 def impl(c):
+    if c["op"] in iomodel.MODEL_OPS:
+        return iomodel.impl(c)
     return ioops.save_text(c["tg"], c["fmt"], c["blanks"], c.get("min"), c.get("max"), min_len=c["minlen"], via_file=False)
 
 
@@ -43,6 +46,8 @@ def fill(es, lo, hi):
 
 
 def oracle(c, r):
+    if c["op"] in iomodel.MODEL_OPS:
+        return None          # model-correspondence case: compared with the Lean model only
     g = c["tg"]
     thr = c["minlen"]
     lo = g["lo"] if c.get("min") is None else c["min"]
@@ -102,6 +107,8 @@ def oracle(c, r):
 
 
 def tags(c, r):
+    if c["op"] in iomodel.MODEL_OPS:
+        return ["model:" + c["op"]] + (["err:" + r[1]] if r[0] == "err" else [])
     out = [c["fmt"], "blanks:%s" % c["blanks"], "thr:%s" % c["minlen"], "override:%s" % (c.get("min") is not None or c.get("max") is not None)]
     if r[0] == "err":
         out.append("err:" + r[1])
@@ -109,6 +116,8 @@ def tags(c, r):
 
 
 def nontrivial(c, r):
+    if c["op"] in iomodel.MODEL_OPS:
+        return True
     thr = c["minlen"] or 1e-8
     g = c["tg"]
     return c.get("min") is not None or c.get("max") is not None or any(
@@ -135,6 +144,18 @@ def gen_sliver_tier(rnd, thr):
 
 
 def gen(rnd, tier):
+    for c in gen_main(rnd, tier):
+        yield c
+        yield from derived(c, rnd)
+
+
+def derived(c, rnd):
+    yield {"op": "prep", "tg": c["tg"], "blanks": c["blanks"], "min": c.get("min"), "max": c.get("max"), "minlen": c["minlen"]}
+    if c["fmt"] in ("short_textgrid", "long_textgrid"):
+        yield {"op": "emit", "tg": c["tg"], "fmt": c["fmt"], "blanks": c["blanks"], "min": c.get("min"), "max": c.get("max"), "minlen": c["minlen"]}
+
+
+def gen_main(rnd, tier):
     n = 40000 if tier == "thorough" else 4000
     for i in range(n):
         thr = rnd.choice([None, 1e-8, 1e-8, 0.06, 0.5])
